@@ -36,7 +36,8 @@ META = {
         ' Round 8: the duplicate scan is gated on the list it scans; a lot group is cut at the bounds of its whole match.'
         " Round 10: stale captures of repeated groups (`word_lot_rightmost`, `and`, `thru`) are not read by value in a rightmost walk - this found and repaired a genuine defect ('N/2 of Lot 1 - Lot 3, 4'); the aliquot look-ahead accepts every element separator."
         " Round 11: `x = x or self.x` on a switch setting drops an explicit False; the acreage pattern finds the acreage in context ('L1(38.29)')."
-        " Round 12: the 'Lot'-word count is taken after this pass's lots were added, as their plain number."),
+        " Round 12: the 'Lot'-word count is taken after this pass's lots were added, as their plain number."
+        ' Also: every acreage the unpacker found is recorded (no `continue` / condition in front of the store).'),
     'families': ['SEP', 'DEFUSE', 'PAIR', 'RX-LANG', 'RX-GROUPS', 'FORWARD', 'DEADPARAM', 'SIB-DEFAULTS'],
 }
 
@@ -236,6 +237,7 @@ def _rest_of_check(ctx, fi, mlwa, aunp):
     ctx.attempt(_dups)
     ctx.attempt(_unpack_lots)
     ctx.attempt(_word_lot_count_after_the_lots)
+    ctx.attempt(_every_unpacked_acreage_is_recorded)
     ctx.attempt(_acreage)
     ctx.attempt(forward.check_all, module_suffixes=('unpack.unpackers', 'tract.tract_parse', 'tract.tract'))
     ctx.attempt(common.flag_prefix_tests)
@@ -422,3 +424,38 @@ def _word_lot_count_after_the_lots(ctx):
                 key="ORDER|unpack_lots|word-lot-count", where=common.loc(fi, bad[0][1]) if bad else None)
     if n == 0:
         ctx.undecided('ORDER', "unpack_lots: the 'Lot'-word count", 'bookkeeping not recognised')
+
+
+def _every_unpacked_acreage_is_recorded(ctx):
+    """TractParser.parse copies every acreage the LotUnpacker found into
+    `lot_acres` (a repeated one additionally raises dup_lot_acreage).  A
+    `continue` / condition in front of the store drops stated acreages - e.g.
+    every acreage of a lot block that has a leading aliquot, although only
+    its first lots are divided ('N/2 of Lot 1, Lot 2(39.50)')."""
+    fi = ctx.repo.func('TractParser.parse')
+    n = 0
+    for lp in walk_local(fi.node):
+        if not (isinstance(lp, ast.For) and 'lot_acres' in norm(lp.iter)):
+            continue
+        stores = [a for a in ast.walk(lp) if isinstance(a, ast.Assign) and any(
+            isinstance(t, ast.Subscript) and 'lot_acres' in norm(t.value) for t in a.targets)]
+        if not stores:
+            continue
+        n += 1
+        st = stores[0]
+        gs = [(t, pol) for t, pol in guards(st, stop=lp)]
+        # statements of the loop body in front of the store that can leave the iteration
+        top = st
+        while getattr(top, '_parent', None) is not lp:
+            top = top._parent
+        idx = lp.body.index(top)
+        skips = [x for s_ in lp.body[:idx] for x in ast.walk(s_) if isinstance(x, (ast.Continue, ast.Break))]
+        ctx.tri(not gs and not skips, bool(gs or skips), 'SINK', 'TractParser.parse records every acreage the unpacker found',
+                detail_bad=(f"the store `{norm(st)[:40]}` " + (f"is skipped by a `{type(skips[0]).__name__.lower()}` under "
+                            f"`{norm(guards(skips[0], stop=lp)[0][0])[:50] if guards(skips[0], stop=lp) else '?'}`" if skips else
+                            f"runs only under `{norm(gs[0][0])[:50]}`") +
+                            ": stated acreages are dropped from lot_acres (all of a block with a leading aliquot, also for the lots the "
+                            "aliquot does not reach)") if (gs or skips) else '',
+                key="SINK|TractParser.parse|acreage-store-conditional", where=common.loc(fi, st))
+    if n == 0:
+        ctx.undecided('SINK', 'TractParser.parse records every acreage the unpacker found', 'acreage transfer loop not recognised')
